@@ -11,6 +11,7 @@
 //! returns, placed on a row the instance never authored, must not verify.
 
 mod gen;
+mod history;
 mod oracle;
 mod rows;
 mod stored;
@@ -44,6 +45,8 @@ pub struct PairCase {
 pub enum Case {
     Pair(PairCase),
     Oracle(oracle::OracleCase),
+    /// histories on real instances: every stored row verifies after every step
+    History(history::HistoryCase),
 }
 
 /// shapes confirmed against the real code: consequences of the digest being the plain
@@ -280,9 +283,15 @@ impl Property for C06 {
             2 => proptest::collection::vec(gen::text(0), 1..5).prop_map(|texts| oracle::Ask::StoredRows { texts }),
         ];
         let oracle = (gen::any_row(), ask).prop_map(|(r, ask)| Case::Oracle(oracle::OracleCase { r, ask }));
+        let history = history::strategy(match _tier {
+            Tier::Quick => 14,
+            Tier::Thorough => 24,
+        })
+        .prop_map(Case::History);
         prop_oneof![
-            400 => pair,
-            1 => oracle,
+            2000 => pair,
+            5 => oracle,
+            2 => history,
         ]
         .boxed()
     }
@@ -290,10 +299,11 @@ impl Property for C06 {
         match case {
             Case::Pair(p) => run_pair(p),
             Case::Oracle(c) => oracle::run(c, ctx),
+            Case::History(h) => history::run(h, ctx),
         }
     }
     fn rule() -> String {
-        "part 1: a proptest-generated row A of one of the four signed kinds (realistic or all-ASCII ids and dates; text with quotes, escapes, multi-byte characters, embedded JSON string literals; JSON objects with surrounding white space; absent / empty / binary / textual _binary) and a transform (one field changed; k bytes moved, copied or dropped across _entity|_json, _json|_binary, _entity|_binary, src_entity|label; an optional field toggled plainly or with the neighbours compensating; the digest bytes re-sliced with a free cut as the same or another kind), optionally with the roles of A and B swapped; the signed row is signed and verified by the real code, the other row carries its signature and key. Non-trivial = the two rows differ and the forged row passes every structural precondition of verify() (non-empty entity / label, JSON object, edge size) and the pair is not an excluded known shape. part 2: a generated row R and a signing request (identity challenge = digest of R / digest input of R / digest under another key / arbitrary bytes, announce header, invitation) sent to a running instance; non-trivial = R structurally valid and a signature obtained. distinct = distinct case digest".to_string()
+        "part 1: a proptest-generated row A of one of the four signed kinds (realistic or all-ASCII ids and dates; text with quotes, escapes, multi-byte characters, embedded JSON string literals; JSON objects with surrounding white space; absent / empty / binary / textual _binary) and a transform (one field changed; k bytes moved, copied or dropped across _entity|_json, _json|_binary, _entity|_binary, src_entity|label; an optional field toggled plainly or with the neighbours compensating; the digest bytes re-sliced with a free cut as the same or another kind), optionally with the roles of A and B swapped; the signed row is signed and verified by the real code, the other row carries its signature and key. Non-trivial = the two rows differ and the forged row passes every structural precondition of verify() (non-empty entity / label, JSON object, edge size) and the pair is not an excluded known shape. part 2: a generated row R and a signing request (identity challenge = digest of R / digest input of R / digest under another key / arbitrary bytes, announce header, invitation) sent to a running instance; non-trivial = R structurally valid and a signature obtained. part 3 (about 1 case in 1000): a generated history on 2-3 real instances whose users all hold the all-rows right (creations, updates, reference changes, moves, deletions of rows and references by users who did not author them, room changes with and without data rows, pulls, bursts, recomputations); after every step every stored node, reference and deletion record of every instance is rebuilt from the tables and must pass the library's verify(); non-trivial = some instance holds a row last changed by another user. distinct = distinct case digest".to_string()
     }
     fn assumptions() -> Vec<String> {
         vec![
